@@ -1,4 +1,5 @@
 //! mvh — conformance harness binding the TLA+ specification in /verif/spec to cf/miden-vm.
+mod exec;
 mod span;
 mod util;
 
@@ -9,6 +10,7 @@ fn main() {
     match a(1) {
         "replay-span" => span::replay_span(a(2), a(3)),
         "opcodes" => span::opcodes(a(2)),
+        "replay-masm" => exec::replay_masm(a(2), a(3)),
         other => {
             eprintln!("unknown sub-command {other}");
             std::process::exit(2);
